@@ -1030,9 +1030,17 @@ impl Entry {
                     .filter_map(|c| c.as_token().map(|t| t.text()))
                     .collect::<String>();
                 let formatted = format_value(self.key().as_ref().unwrap(), &concat);
-                crate::lex::lex_inline(&formatted)
-                    .map(|(k, t)| (k, t.to_string()))
-                    .collect::<Vec<_>>()
+                // Lex the formatted value line by line: after a newline the inline
+                // lexer would be back at the start of a line and take the next
+                // line of the value for a key.
+                let mut tokens = vec![];
+                for (i, line) in formatted.split('\n').enumerate() {
+                    if i > 0 {
+                        tokens.push((NEWLINE, "\n".to_string()));
+                    }
+                    tokens.extend(crate::lex::lex_inline(line).map(|(k, t)| (k, t.to_string())));
+                }
+                tokens
             } else {
                 content
                     .into_iter()
